@@ -157,6 +157,29 @@ def run(rep, tier, seed, model_ok=True, effort=1):
             if code != 0:
                 rep.violation("update was blocked although only %s (untracked, carries no pattern) is dirty" % extra_name,
                               input=dict(status="untracked", file=extra_name, allow_dirty=False, git_status=status_text, exit=code, logs=logs[-3:]), **{"class": "blocked-wrongly"})
+    # a pattern file (reached through a glob entry) in a directory in which nothing is tracked yet: git shows the directory, not the file, unless asked
+    # for every untracked file -- it is an untracked pattern file all the same and blocks the update, with or without --allow-dirty; an unrelated
+    # untracked directory next to it never does
+    for extra in ([], ["--allow-dirty"]):
+        for with_pattern_file in (True, False):
+            prj = project.TempProject("MAJOR.MINOR.PATCH", "1.2.3", files={"*/version.txt": ["{version}"]}, contents={"core/version.txt": "1.2.3\n"}, commit=True, tag=False, push=False, vcs="git")
+            with prj:
+                os.makedirs(prj.path("plugin")); os.makedirs(prj.path("scratch"))
+                open(prj.path("scratch/notes.txt"), "w").write("unrelated\n")
+                if with_pattern_file:
+                    open(prj.path("plugin/version.txt"), "w").write("1.2.3\n")
+                else:
+                    open(prj.path("plugin/readme.txt"), "w").write("no version here\n")
+                status_text = prj.git("status", "--porcelain")
+                before = prj.snapshot()
+                code, out, logs, exc = prj.run(impl, ["update", "--patch", "--no-fetch", "--commit"] + extra)
+                after = prj.snapshot()
+            rep.case(("untracked-directory", tuple(extra), with_pattern_file), nontrivial=True)
+            inp = dict(status="untracked", file="plugin/version.txt" if with_pattern_file else "plugin/readme.txt", entry="*/version.txt", allow_dirty=bool(extra), git_status=status_text, exit=code, logs=logs[-3:])
+            if with_pattern_file and (code == 0 or after != before):
+                rep.violation("an untracked pattern file in an untracked directory did not block the update (exit %s, files changed: %s)" % (code, after != before), input=inp, **{"class": "dirty-not-blocked"})
+            if not with_pattern_file and extra and code != 0:
+                rep.violation("update --allow-dirty was blocked although only untracked files without a pattern are dirty", input=inp, **{"class": "blocked-wrongly"})
     # with a pre-commit hook configured, --allow-dirty still keeps an unrelated modified file out of the bump commit
     prj = project.TempProject("MAJOR.MINOR.PATCH", "1.2.3", files={"a.txt": ["ver = {version}"]}, contents={"other.txt": "unrelated\n"},
                               commit=True, tag=False, push=False, vcs="git", hooks={"pre": "ok"})
